@@ -1,1 +1,296 @@
-//! (module to be written)
+//! Independent TFM byte reader (tex.web §539‑§576, tftopl.web §8‑§21), no repository types.
+//!
+//! `parse` reads the twelve 16-bit lengths, checks the conditions under which TFtoPL §20‑21 / TeX
+//! §565‑566 go on (lengths non-negative, `lh >= 2`, `bc <= ec+1 <= 256`, `ne <= 256`, the four dimension
+//! tables non-empty, and the size equation `lf = 6+lh+(ec-bc+1)+nw+nh+nd+ni+nl+nk+ne+np`), requires
+//! the byte length to be exactly `4*lf`, and cuts the file into its arrays. `tex_load_errors` lists
+//! the further conditions of TeX §570‑§576 under which TeX itself would refuse the font.
+
+pub type Word = [u8; 4];
+
+#[derive(Clone, Debug, PartialEq, Eq)]
+pub enum Error {
+    /// fewer than 24 bytes
+    NoSizeTable(usize),
+    /// a length has its sign bit set (§565 `read_sixteen`: abort if > 127)
+    Negative(&'static str, u16),
+    /// byte length is not 4*lf
+    Length { lf: usize, bytes: usize },
+    HeaderTooShort(usize),
+    CharRange { bc: usize, ec: usize },
+    EmptyDimensionTable,
+    TooManyExten(usize),
+    SizeEquation { lf: usize, sum: usize },
+}
+
+#[derive(Clone, Debug, PartialEq, Eq, Default)]
+pub struct Raw {
+    pub lf: usize,
+    pub lh: usize,
+    pub bc: usize,
+    pub ec: usize,
+    pub nw: usize,
+    pub nh: usize,
+    pub nd: usize,
+    pub ni: usize,
+    pub nl: usize,
+    pub nk: usize,
+    pub ne: usize,
+    pub np: usize,
+    pub header: Vec<Word>,
+    /// one word per character bc..=ec: [width_index, 16*height_index+depth_index, 4*italic_index+tag, remainder]
+    pub char_info: Vec<Word>,
+    pub width: Vec<i32>,
+    pub height: Vec<i32>,
+    pub depth: Vec<i32>,
+    pub italic: Vec<i32>,
+    pub lig_kern: Vec<Word>,
+    pub kern: Vec<i32>,
+    pub exten: Vec<Word>,
+    pub param: Vec<i32>,
+}
+
+/// Everything the font says about one character, by value.
+#[derive(Clone, Debug, PartialEq, Eq)]
+pub struct CharMetrics {
+    pub width: i32,
+    pub height: i32,
+    pub depth: i32,
+    pub italic: i32,
+    /// 0 none, 1 lig/kern program, 2 next larger, 3 extensible
+    pub tag: u8,
+    pub remainder: u8,
+}
+
+pub fn parse(b: &[u8]) -> Result<Raw, Error> {
+    if b.len() < 24 {
+        return Err(Error::NoSizeTable(b.len()));
+    }
+    let names = ["lf", "lh", "bc", "ec", "nw", "nh", "nd", "ni", "nl", "nk", "ne", "np"];
+    let mut v = [0usize; 12];
+    for i in 0..12 {
+        let x = u16::from_be_bytes([b[2 * i], b[2 * i + 1]]);
+        if x > 0x7fff {
+            return Err(Error::Negative(names[i], x));
+        }
+        v[i] = x as usize;
+    }
+    let [lf, lh, bc, ec, nw, nh, nd, ni, nl, nk, ne, np] = v;
+    if b.len() != 4 * lf {
+        return Err(Error::Length { lf, bytes: b.len() });
+    }
+    if lh < 2 {
+        return Err(Error::HeaderTooShort(lh));
+    }
+    if bc > ec + 1 || ec > 255 {
+        return Err(Error::CharRange { bc, ec });
+    }
+    if nw == 0 || nh == 0 || nd == 0 || ni == 0 {
+        return Err(Error::EmptyDimensionTable);
+    }
+    if ne > 256 {
+        return Err(Error::TooManyExten(ne));
+    }
+    let nc = ec + 1 - bc;
+    let sum = 6 + lh + nc + nw + nh + nd + ni + nl + nk + ne + np;
+    if lf != sum {
+        return Err(Error::SizeEquation { lf, sum });
+    }
+    let mut pos = 24usize;
+    let mut words = |n: usize| -> Vec<Word> {
+        let out = (0..n).map(|i| [b[pos + 4 * i], b[pos + 4 * i + 1], b[pos + 4 * i + 2], b[pos + 4 * i + 3]]).collect();
+        pos += 4 * n;
+        out
+    };
+    let fix = |w: Vec<Word>| -> Vec<i32> { w.into_iter().map(i32::from_be_bytes).collect() };
+    let header = words(lh);
+    let char_info = words(nc);
+    let width = fix(words(nw));
+    let height = fix(words(nh));
+    let depth = fix(words(nd));
+    let italic = fix(words(ni));
+    let lig_kern = words(nl);
+    let kern = fix(words(nk));
+    let exten = words(ne);
+    let param = fix(words(np));
+    Ok(Raw { lf, lh, bc, ec, nw, nh, nd, ni, nl, nk, ne, np, header, char_info, width, height, depth, italic, lig_kern, kern, exten, param })
+}
+
+impl Raw {
+    pub fn checksum(&self) -> u32 {
+        u32::from_be_bytes(self.header[0])
+    }
+    pub fn design_size(&self) -> i32 {
+        i32::from_be_bytes(self.header[1])
+    }
+    /// The character exists iff its width index is non-zero (§554).
+    pub fn exists(&self, c: usize) -> bool {
+        c >= self.bc && c <= self.ec && self.char_info[c - self.bc][0] != 0
+    }
+    pub fn chars(&self) -> Vec<u8> {
+        (self.bc..=self.ec.min(255)).filter(|c| self.bc <= self.ec && self.exists(*c)).map(|c| c as u8).collect()
+    }
+    /// Metrics by value; None if the character does not exist or an index leaves its table.
+    pub fn metrics(&self, c: usize) -> Option<CharMetrics> {
+        if !self.exists(c) {
+            return None;
+        }
+        let w = self.char_info[c - self.bc];
+        Some(CharMetrics {
+            width: *self.width.get(w[0] as usize)?,
+            height: *self.height.get((w[1] >> 4) as usize)?,
+            depth: *self.depth.get((w[1] & 15) as usize)?,
+            italic: *self.italic.get((w[2] >> 2) as usize)?,
+            tag: w[2] & 3,
+            remainder: w[3],
+        })
+    }
+    /// (character, remainder) of every *existing* character whose tag is 1.
+    pub fn lig_starts(&self) -> Vec<(u8, u8)> {
+        self.chars().into_iter().filter_map(|c| self.metrics(c as usize).filter(|m| m.tag == 1).map(|m| (c, m.remainder))).collect()
+    }
+    /// Right boundary character: §573/§576, first lig/kern word with skip byte 255.
+    pub fn boundary_char(&self) -> Option<u8> {
+        self.lig_kern.first().filter(|w| w[0] == 255).map(|w| w[1])
+    }
+
+    /// Conditions of TeX §570‑§576 (beyond the size table) that make TeX abort loading. Empty = TeX loads it.
+    pub fn tex_load_errors(&self) -> Vec<String> {
+        let mut e = vec![];
+        let bchar = self.boundary_char();
+        // §570: indices in range, tag consistency
+        for c in self.bc..=self.ec.min(255) {
+            if self.bc > self.ec {
+                break;
+            }
+            let w = self.char_info[c - self.bc];
+            if w[0] as usize >= self.nw || (w[1] >> 4) as usize >= self.nh || (w[1] & 15) as usize >= self.nd || (w[2] >> 2) as usize >= self.ni {
+                e.push(format!("char {c}: dimension index out of range"));
+            }
+            match w[2] & 3 {
+                1 if w[3] as usize >= self.nl => e.push(format!("char {c}: lig/kern start {} >= nl", w[3])),
+                3 if w[3] as usize >= self.ne => e.push(format!("char {c}: exten index {} >= ne", w[3])),
+                2 => {
+                    // §570: check_byte_range(d); the chain must not cycle back to c
+                    let mut d = w[3] as usize;
+                    if d < self.bc || d > self.ec {
+                        e.push(format!("char {c}: next larger {d} outside bc..ec"));
+                    } else {
+                        let mut steps = 0;
+                        while d < c && steps < 300 {
+                            let q = self.char_info[d - self.bc];
+                            if q[2] & 3 != 2 {
+                                break;
+                            }
+                            d = q[3] as usize;
+                            if d < self.bc || d > self.ec {
+                                break;
+                            }
+                            steps += 1;
+                        }
+                        if d == c {
+                            e.push(format!("char {c}: next larger chain cycles"));
+                        }
+                    }
+                }
+                _ => {}
+            }
+        }
+        // §571: first entries are zero, values fit
+        if self.width[0] != 0 || self.height[0] != 0 || self.depth[0] != 0 || self.italic[0] != 0 {
+            e.push("width[0], height[0], depth[0] or italic[0] is not zero".into());
+        }
+        for (name, t) in [("width", &self.width), ("height", &self.height), ("depth", &self.depth), ("italic", &self.italic), ("kern", &self.kern)] {
+            for (i, v) in t.iter().enumerate() {
+                let a = (*v as u32 >> 24) as u8;
+                if a != 0 && a != 255 {
+                    e.push(format!("{name}[{i}] is not less than 16 in absolute value"));
+                }
+            }
+        }
+        // §573: lig/kern commands
+        for (k, w) in self.lig_kern.iter().enumerate() {
+            let [a, b, c, d] = *w;
+            if a > 128 {
+                if 256 * c as usize + d as usize >= self.nl {
+                    e.push(format!("lig/kern {k}: restart address >= nl"));
+                }
+            } else {
+                if Some(b) != bchar && !self.exists(b as usize) {
+                    e.push(format!("lig/kern {k}: next_char {b} does not exist"));
+                }
+                if c < 128 {
+                    if !self.exists(d as usize) {
+                        e.push(format!("lig/kern {k}: ligature character {d} does not exist"));
+                    }
+                } else if 256 * (c as usize - 128) + d as usize >= self.nk {
+                    e.push(format!("lig/kern {k}: kern index >= nk"));
+                }
+                if a < 128 && k + a as usize + 1 >= self.nl {
+                    e.push(format!("lig/kern {k}: skips past the end"));
+                }
+            }
+        }
+        // §574: extensible recipes
+        for (k, w) in self.exten.iter().enumerate() {
+            for (j, x) in w.iter().enumerate() {
+                if (j == 3 || *x != 0) && !self.exists(*x as usize) {
+                    e.push(format!("exten {k}: piece {x} does not exist"));
+                }
+            }
+        }
+        // §575: parameters other than the slant must be < 16
+        for (i, v) in self.param.iter().enumerate().skip(1) {
+            let a = (*v as u32 >> 24) as u8;
+            if a != 0 && a != 255 {
+                e.push(format!("param {} is not less than 16 in absolute value", i + 1));
+            }
+        }
+        e
+    }
+}
+
+/// TeX §571‑572 `store_scaled`: the fix_word with bytes `w` times `z` (the font size in scaled
+/// points, `z = design_size_fixword / 16` at the design size, §568). None where TeX aborts
+/// (`a` neither 0 nor 255, or z outside 0 < z < 2^27).
+pub fn store_scaled(w: i32, z: i64) -> Option<i64> {
+    if z <= 0 || z >= 0o1000000000 {
+        return None;
+    }
+    let mut z = z;
+    let mut alpha: i64 = 16;
+    while z >= 0o40000000 {
+        z /= 2;
+        alpha += alpha;
+    }
+    let beta = 256 / alpha;
+    let alpha = alpha * z;
+    let [a, b, c, d] = w.to_be_bytes();
+    let sw = (((d as i64 * z) / 0o400 + c as i64 * z) / 0o400 + b as i64 * z) / beta;
+    match a {
+        0 => Some(sw),
+        255 => Some(sw - alpha),
+        _ => None,
+    }
+}
+
+#[cfg(test)]
+mod tests {
+    use super::*;
+    #[test]
+    fn scaled_one() {
+        assert_eq!(store_scaled(1 << 20, 10 << 16), Some(10 << 16));
+        assert_eq!(store_scaled(-(1 << 20), 10 << 16), Some(-(10 << 16)));
+    }
+    #[test]
+    fn minimal() {
+        // lf=12: 6 + lh 2 + 0 chars + 1+1+1+1
+        let mut b = vec![0u8; 48];
+        for (i, v) in [12u16, 2, 1, 0, 1, 1, 1, 1, 0, 0, 0, 0].iter().enumerate() {
+            b[2 * i..2 * i + 2].copy_from_slice(&v.to_be_bytes());
+        }
+        let r = parse(&b).unwrap();
+        assert_eq!(r.chars(), Vec::<u8>::new());
+        assert!(r.tex_load_errors().is_empty());
+    }
+}
